@@ -341,3 +341,20 @@ def _r3(ctx):
     rep.check(len(sv) == 1 and not css.loops(), 'R3', 'set_sampled-sets-once', where(sb_samp),
               'one set_value, loop-free', 'set_sampled calls set_value %d times / contains a loop: old may go stale'
               % len(sv))
+
+
+def thorough(ctx):
+    """Thorough tier: compile-fail witnesses (+ compiling twins) for the type-level remainder."""
+    from ..witness import run_witnesses
+    rep = ctx.rep
+    res, tail, rc = run_witnesses(ctx.repo)
+    wanted = {'W1BasisCannotOutliveState': 'a basis handle cannot outlive its state', 'W3bBasisFieldsArePrivate': 'old/min/max of a handle cannot be forged'}
+    n = 0
+    for name, verdict in sorted(res.items()):
+        w, kind, _line = name.split(':')
+        if w not in wanted:
+            continue
+        n += 1
+        rep.check(verdict == 'ok', 'W', '%s:%s' % (w, kind), 'witness/src/lib.rs', wanted[w] + (' (does not compile)' if kind == 'compile_fail' else ' (twin compiles)'),
+                  'witness %s/%s failed: the type-level guarantee "%s" no longer holds for downstream code (or the public API it uses changed)' % (w, kind, wanted[w]))
+    rep.floor('W', 'witness doctests', n, 4, 'witness/src/lib.rs')
